@@ -984,11 +984,11 @@ func (t *txattrwalk) handle(cs *connState) message {
 	defer ref.DecRef()
 
 	size := 0
+	var buf []byte
 	if err := ref.safelyRead(func() error {
 		if ref.isDeleted() {
 			return linux.EINVAL
 		}
-		var buf []byte
 		var err error
 		if len(t.Name) > 0 {
 			buf, err = ref.file.GetXattr(t.Name)
@@ -1010,30 +1010,27 @@ func (t *txattrwalk) handle(cs *connState) message {
 			return linux.EINVAL
 		}
 		size = len(buf)
-
-		// The xattr fid is clunked independently of fid, and its clunk
-		// closes its File: give it a File of its own (a clone) rather than
-		// sharing ref.file, which must stay usable and be closed only once.
-		_, xf, err := ref.file.Walk(nil)
-		if err != nil {
-			return err
-		}
-		newRef := &fidRef{
-			server: cs.server,
-			file:   xf,
-			pendingXattr: pendingXattr{
-				op:   xattrWalk,
-				name: t.Name,
-				size: uint64(size),
-				buf:  buf,
-			},
-			pathNode: ref.pathNode,
-		}
-		cs.InsertFID(t.newFID, newRef)
 		return nil
 	}); err != nil {
 		return newErr(err)
 	}
+
+	// The xattr fid is clunked independently of fid, and its clunk closes
+	// its File: give it a reference of its own, made the way a clone walk
+	// makes one - a File of its own (ref.file must stay usable and be closed
+	// only once), registered in the path tree so that renames reach it.
+	_, newRef, _, _, err := doWalk(cs, ref, nil, false)
+	if err != nil {
+		return newErr(err)
+	}
+	defer newRef.DecRef()
+	newRef.pendingXattr = pendingXattr{
+		op:   xattrWalk,
+		name: t.Name,
+		size: uint64(size),
+		buf:  buf,
+	}
+	cs.InsertFID(t.newFID, newRef)
 	return &rxattrwalk{Size: uint64(size)}
 }
 
